@@ -49,8 +49,14 @@ _LAZY_ATTRS: dict[str, tuple[str, str]] = {
 
 def __getattr__(name: str) -> t.Any:
     import importlib
+    from sqlglot import _verif
+
+    if _verif.ENABLED:
+        _verif.emit("opt_wait", name=name)
 
     with _import_lock:
+        if _verif.ENABLED:
+            _verif.emit("opt_locked", name=name)
         target = _LAZY_ATTRS.get(name)
         if target is not None:
             module_name, attr = target
@@ -61,5 +67,7 @@ def __getattr__(name: str) -> t.Any:
                 value = importlib.import_module(f"{__name__}.{name}")
             except ModuleNotFoundError:
                 raise AttributeError(f"module {__name__!r} has no attribute {name!r}") from None
+        if _verif.ENABLED:
+            _verif.emit("opt_publish", name=name)
         globals()[name] = value
         return value
